@@ -31,6 +31,7 @@ from . import c07_pool, c07_replay
 from .c07_replay import SAMPLE_NAMES, canon, point_dependent
 
 LEVEL = 'model_checking'
+TAG = 'c07' + os.environ.get('VF_C07_TAG', '')      # scratch-directory prefix (lets mutation runs proceed side by side)
 
 CFG = '''SPECIFICATION Spec
 CONSTANTS
@@ -79,7 +80,7 @@ def families(quick):
         fam('choose', '{"choose"}', S('EX', 'EY', 'ab2', 'ai2', 'X', 'af2', 'Y', 'rf', 'ac2', 'cb23', 'af23'), one, maxleaves=3, maxunused=2),
         fam('product', '{"dot", "matmul", "vdot", "cross"}', S('X', 'Y', 'BX', 'af2', 'af3', 'af23', 'af22', 'af223', 'cf33', 'cf21', 'ai2', 'ab2', 'ac2', 'cc22', 'rf'), one if quick else B),
         fam('einsum', '{"einsum"}', S('X', 'Y', 'BX', 'af2', 'af3', 'af23', 'af22', 'af223', 'cf33', 'ab2', 'cc22'), one if quick else B),
-        fam('linalg', 'LinOps', S('af22', 'af23', 'af223', 'cf33', 'cc22', 'BX', 'Y', 'X', 'ci23', 'cb23'), [PRODYX] if quick else B, maxleaves=1),
+        fam('linalg', 'LinOps', S('af22', 'af23', 'af223', 'cf33', 'cc22', 'ci22', 'BX', 'Y', 'X', 'ci23', 'cb23'), [PRODYX] if quick else B, maxleaves=1),
         fam('lookup', 'LookupOps', S('rn3', 'rm3', 'cs3', 'as3', 'X', 'af23', 'EX', 'ai2') if quick else S('rn3', 'rm3', 'cf3', 'cs3', 'as3', 'X', 'Y', 'BX', 'af23', 'EX', 'ai2'), one, maxleaves=3, maxunused=2),
     ]
     if quick:
@@ -90,6 +91,7 @@ def families(quick):
             fam('shape2', '{"reshape", "transpose", "swapaxes", "ravel"}', S('af23', 'Y'), [PRODXY], maxops=2, maxleaves=1, wide=0),
             fam('reduce2', '{"sum", "all", "greater"}', S('af223', 'BX', 'af0'), [PRODXY], maxops=2, maxleaves=2, wide=0),
             fam('mixed2', '{"getitem", "sum", "transpose", "multiply"}', S('X', 'af23', 'BX'), [PRODXY], maxops=2, maxleaves=2, wide=0),
+            fam('join2', '{"multiply", "stack", "concatenate"}', S('af23', 'BX'), [LINEB], maxops=2, maxleaves=2, wide=0),
             fam('lin2', '{"matmul", "einsum", "inv"}', S('af22', 'Y'), [PRODYX], maxops=2, maxleaves=2, wide=0),
         ]
         return d1 + d2
@@ -104,9 +106,9 @@ def families(quick):
         fam('promotion-all', 'ElemOps \\cup CompareOps', S('ab2', 'ai2', 'af2', 'ac2', 'X', 'EX', 'ri', 'rf', 'rb', 'rc', 'ci2', 'cc0', 'cb2', 'af0'), [LINEB, LINEU, PRODYX]),
         fam('getitem-all', 'IndexOps', S('BX', 'af23', 'af223', 'X', 'EX', 'ai2'), [LINEB, LINEG, LINEU]),
         fam('getitem-rect', 'IndexOps', S('Y', 'af23', 'EY', 'ci23'), [RECTB]),
-        fam('elem3', '{"add", "multiply", "true_divide", "greater", "power"}', S('X', 'af2'), [LINEU, PRODXY], maxops=3, maxleaves=2, wide=0),
+        fam('elem3', '{"add", "multiply", "true_divide", "greater"}', S('X', 'af2'), [PRODXY], maxops=3, maxleaves=2, wide=0),
         fam('index3', '{"getitem"}', S('af223'), [PRODXY], maxops=3, maxleaves=1, wide=0),
-        fam('mixed2b', '{"getitem", "sum", "prod", "transpose", "reshape", "multiply", "add", "stack", "concatenate", "matmul", "dot", "take", "absolute", "minimum"}', S('X', 'Y', 'af23', 'BX'), [PRODYX],
+        fam('mixed2b', '{"getitem", "sum", "prod", "transpose", "reshape", "multiply", "stack", "concatenate", "dot", "take", "minimum"}', S('Y', 'af23', 'BX'), [PRODYX],
             maxops=2, maxleaves=2, wide=0),
     ]
     return d1 + d2
@@ -161,7 +163,7 @@ def collect(res, tables, progs, origin):
 def spec_mutant(rep):
     """non-vacuity of the model's own laws: the promotion mutant (true_divide keeps the operand kind) must violate KindLaw"""
     fams = [fam('mutant', '{"true_divide", "add"}', S('ai2', 'EX', 'af2'), [LINEG])]
-    res = run_builder('c07-mutant', fams, mutant=True, workers=2)
+    res = run_builder(TAG + '-mutant', fams, mutant=True, workers=2)
     rep.add_tlc(res)
     if res.violated != 'KindLaw':
         raise RuntimeError('spec mutant (WrongPromotion) is not caught by the KindLaw invariant: TLC reports {}'.format(res.violated))
@@ -180,7 +182,7 @@ def run(rep):
     ncpu = os.cpu_count() or 4
 
     def bfs():
-        results['bfs'] = run_builder('c07-bfs', fams, timeout=1500, workers=max(2, ncpu - (2 if quick else 6)))
+        results['bfs'] = run_builder(TAG + '-bfs', fams, timeout=1200 if quick else 3600, workers=max(2, ncpu - (2 if quick else 6)))     # unloaded: ~15 s / ~100 s
 
     def mutant():
         spec_mutant(rep)
@@ -188,7 +190,7 @@ def run(rep):
     nsim = 2 if quick else 6
 
     def sim(i):
-        results['sim', i] = run_builder('c07-sim{}'.format(i), [SIM_FAMILY], simulate=14 if quick else 150, depth=10, seed=rep.seed * 100 + 7 + i, emitmin=2, timeout=90 if quick else 600)
+        results['sim', i] = run_builder(TAG + '-sim{}'.format(i), [SIM_FAMILY], simulate=10 if quick else 150, depth=10, seed=rep.seed * 100 + 7 + i, emitmin=2, timeout=240 if quick else 900)      # unloaded: ~10 s / ~60 s; a timeout ends the (open-ended) simulation early
 
     errors = []
 
@@ -256,7 +258,7 @@ def run(rep):
         else:
             items.extend(es)
     rng.shuffle(items)
-    cap = 25000 if quick else 240000      # bound on the replay work (nutils compiles every expression it evaluates: ~20 ms CPU each)
+    cap = 26000 if quick else 240000      # bound on the replay work (nutils compiles every expression it evaluates: ~20 ms CPU each)
     if len(items) > cap:
         keep = [e for e in items if e['origin'] == 'bfs']
         sims = [e for e in items if e['origin'] != 'bfs']
